@@ -67,6 +67,9 @@ func discharge(vcs []*VC, opt runOpts) {
 			defer wg.Done()
 			for j := range ch {
 				t := opt.timeoutS
+				if strings.HasPrefix(j.o.Expect, "finding:") {
+					t = 5
+				}
 				if j.o.Expect == "fail" {
 					t = 2
 					if t > opt.timeoutS {
@@ -85,7 +88,7 @@ func discharge(vcs []*VC, opt runOpts) {
 				if !staged {
 					r = raceSolve(opt.scratch, j.o.Name, q, t, opt.all && j.o.Expect != "fail")
 				}
-				if r.Answer != "unsat" && r.Answer != "sat" && j.o.Expect != "fail" {
+				if r.Answer != "unsat" && r.Answer != "sat" && j.o.Expect == "" {
 					// one retry with a doubled budget (DESIGN 7, alarm hygiene)
 					r2 := raceSolve(opt.scratch, j.o.Name+".retry", q, 2*t, false)
 					if r2.Answer == "unsat" || r2.Answer == "sat" {
@@ -169,6 +172,7 @@ func cmdVerify(args []string) {
 	verbose := fs.Bool("v", false, "")
 	only := fs.String("only", "", "substring filter on obligation names")
 	mutant := fs.String("mutant", "", "verify the tree with this patch applied (through an overlay; /repo is not touched)")
+	carved := fs.Bool("carved", false, "assume the carve-outs of known findings")
 	fs.Parse(args)
 	start := time.Now()
 	var overlay map[string][]byte
@@ -220,6 +224,7 @@ func cmdVerify(args []string) {
 			continue
 		}
 		vc := newVC(env, fn, d)
+		vc.carved = *carved
 		if err := vc.generate(); err != nil {
 			fmt.Printf("GENERATION FAILED: %v\n", err)
 			bad++
